@@ -25,7 +25,7 @@ Decode(lo, t) == [i \in DOMAIN t |-> IF t[i] = -1 THEN lo ELSE t[i]]
 CompU == LET T == ToSet(Hdr.companions) IN
          [c \in {t.cp : t \in T} |-> CHOOSE t \in T : t.cp = c]
 
-AttrOf(e) == [cp |-> e.lo, idp |-> "?", vir |-> e.sig.vir, jt |-> e.sig.jt, sc |-> e.sig.sc, zs |-> e.sig.zs,
+AttrOf(e) == [cp |-> e.lo, idp |-> e.sig.idp, vir |-> e.sig.vir, jt |-> e.sig.jt, sc |-> e.sig.sc, zs |-> e.sig.zs,
               wm |-> e.sig.wm, lower |-> Decode(e.lo, e.sig.lower), bidi |-> e.sig.bidi]
 
 World(e) == [mode |-> "facts", facts |-> <<>>, dev |-> {},
@@ -35,6 +35,11 @@ SigRec(e) == [exc |-> e.sig.exc, bc |-> "", cat |-> ToSet(e.sig.cat)]
 
 \* result of a string-valued probe, decoded
 ObsStr(e, r) == IF "ok" \in DOMAIN r THEN [ok |-> Decode(e.lo, r.ok)] ELSE r
+
+\* any result, decoded: the offending code point of an error payload is relative as well
+ObsRes(e, r) == IF "ok" \in DOMAIN r THEN [ok |-> Decode(e.lo, r.ok)]
+                ELSE IF "cp" \in DOMAIN r THEN [r EXCEPT !.cp = IF @ = -1 THEN e.lo ELSE @]
+                ELSE r
 
 \* the order of api::CTX_RULES in the harness
 RuleSeq == <<"zwnj", "zwj", "middle_dot", "keraia", "hebrew", "katakana", "arabic_indic", "ext_arabic_indic">>
@@ -46,7 +51,7 @@ BadFieldsCp(e) ==
       a == 97  A == 65  R == 1488  AN == 1633
       A6 == <<97, 97, 97, 97, 97, 97>>  A7 == <<97, 97, 97, 97, 97, 97, 97>>  A8 == <<97, 97, 97, 97, 97, 97, 97, 97>> IN
   {f \in {"id", "idc", "ff", "ffc", "reg", "regdom", "vir", "greek", "hebrew", "kana", "ld", "rd", "mdl", "mdr", "aidx", "eaidx", "own",
-          "wm1", "wm2", "wm3", "wm4", "wm5", "osp2", "nsp2", "osp3", "nsp3", "osp4", "lc1", "lc2", "lc3", "lc4", "lc5", "wm6", "wm7", "osp5", "osp6", "nsp4", "nsp5", "osp", "nsp", "bidi1", "bidi2", "bidi3", "bidi4", "bidi5",
+          "wm1", "wm2", "wm3", "wm4", "wm5", "osp2", "nsp2", "osp3", "nsp3", "osp4", "lc1", "lc2", "lc3", "lc4", "lc5", "wm6", "wm7", "osp5", "osp6", "nsp4", "nsp5", "pp1", "pp2", "pp3", "pp4", "al1", "al2", "al3", "al4", "sigidp", "osp", "nsp", "bidi1", "bidi2", "bidi3", "bidi4", "bidi5",
           "sigexc", "sigascii"} :
      CASE f = "id"  -> o.id  # Derived(sg, "Id")
        [] f = "idc" -> o.idc # Derived(sg, "Id")
@@ -87,6 +92,19 @@ BadFieldsCp(e) ==
        [] f = "osp6" -> ObsStr(e, o.blk[6]) # Ok(PwSpaces(W, A8 \o <<c>> \o A7))
        [] f = "nsp4" -> ObsStr(e, o.blk[7]) # Ok(NickSpaces(W, <<a, c>> \o A6))
        [] f = "nsp5" -> ObsStr(e, o.blk[8]) # Ok(NickSpaces(W, A8 \o <<c>> \o A7))
+       \* prepare (width mapping, non-empty, string class with context rules) and the classes themselves
+       \* (a width-mapped character becomes a character whose attributes are not part of this event: skipped here, the
+       \* width rule itself is wm1..wm7 and the composition is checked on the model alphabets)
+       [] f = "pp1" -> e.sig.wm = -1 /\ ObsRes(e, o.pp[1]) # Prepare(W, "UCM", <<c>>)
+       [] f = "pp2" -> e.sig.wm = -1 /\ ObsRes(e, o.pp[2]) # Prepare(W, "UCP", <<c>> \o A7)
+       [] f = "pp3" -> ObsRes(e, o.pp[3]) # Prepare(W, "OPQ", A8 \o <<c>> \o A7)
+       [] f = "pp4" -> ObsRes(e, o.pp[4]) # Prepare(W, "NICK", <<a, c>>)
+       [] f = "al1" -> ObsRes(e, o.al[1]) # Allows(W, "Id", <<c>>)
+       [] f = "al2" -> ObsRes(e, o.al[2]) # Allows(W, "Ff", <<a, c, a>>)
+       [] f = "al3" -> ObsRes(e, o.al[3]) # Allows(W, "Id", <<a, c, a>>)
+       [] f = "al4" -> ObsRes(e, o.al[4]) # Allows(W, "Ff", <<c>>)
+       \* consistency of the oracle's own rendering of the decision list with this specification's
+       [] f = "sigidp" -> PropOf("Id", e.sig.idp) # Derived(sg, "Id") \/ PropOf("Ff", e.sig.idp) # Derived(sg, "Ff")
        [] f = "osp" -> ObsStr(e, o.osp) # Ok(PwSpaces(W, <<a, c, a>>))
        [] f = "nsp" -> ObsStr(e, o.nsp) # Ok(NickSpaces(W, <<a, c, a>>))
        [] f = "bidi1" -> o.bidi[1] # DirExp(W, <<R, c>>)
